@@ -18,7 +18,7 @@ import os
 
 PROPERTY = "C27"
 TIERS = {
-    "quick": dict(seeds=96, soft_s=150, hard_s=480, per_seed_s=240, init_s=300, examples=25),
+    "quick": dict(seeds=320, soft_s=150, hard_s=480, per_seed_s=240, init_s=300, examples=25),
     "thorough": dict(seeds=3200, soft_s=1500, hard_s=2400, per_seed_s=400, init_s=300, examples=60),
 }
 RULE = ("one evaluation = one generated history (Hypothesis stateful example): a random architecture "
